@@ -78,7 +78,11 @@ func NewHTTP2HTTPSPlugin(_ PluginContext, options v1.ClientPluginOptions) (Plugi
 	}
 
 	p.s = &http.Server{
-		Handler:           rp,
+		Handler: http.HandlerFunc(func(w http.ResponseWriter, r *http.Request) {
+			// see pkg/util/vhost/http.go: request body and response flow at the same time
+			_ = http.NewResponseController(w).EnableFullDuplex()
+			rp.ServeHTTP(w, r)
+		}),
 		ReadHeaderTimeout: 0,
 	}
 
